@@ -2,7 +2,7 @@ import IastModel.Rewriter.Rewrite
 import IastModel.Spec.Erase
 import IastModel.Props.C07
 import IastModel.Lemmas.EffBlock
-import IastModel.Lemmas.ErVisitMain
+import IastModel.Lemmas.ErBlock
 import IastModel.Lemmas.ErStrip
 /-
   C02 — rewriting only adds instrumentation: erasing it gives back the input program.
@@ -136,6 +136,55 @@ theorem operation_visitor_binds_only_its_own_temporaries_partial (cfg : Config) 
   intro σ
   obtain ⟨X, Δ, e, sX, w⟩ := h.2.1 _ (BRg.refl _) σ
   exact ⟨X, Δ, e, sX.1, w⟩
+
+/-- the program a modified run returns, with the file prologue taken out again, erases like the program
+    without the prologue -/
+theorem eraseProgram_insertPrologue (dsts : List String) (p1 : Node) :
+    eraseProgram (prologue dsts) (insertPrologue (prologue dsts) p1) = (erase [] p1).1 := by
+  unfold insertPrologue
+  split
+  · rename_i k sp ns body vs
+    simp only [eraseProgram, prologue_removable]
+  · rename_i hne
+    unfold eraseProgram
+    split
+    · rename_i k sp ns body vs
+      exact absurd rfl (hne k sp ns body vs)
+    · rfl
+
+/-- **C02 for the whole pipeline (partial: programs without optional chaining).**  For every
+    configuration, every fuel and every well-formed source program `p` (what the parser produces; `srcOk`,
+    decidable, evaluated by the driver on every input) that contains no optional chain, whenever the
+    rewrite reports the file as modified, erasing the instrumentation from the output — the file prologue,
+    the injected `let` of every block at every nesting depth, every hook call, temporary, lowered `+=`,
+    call through a hoisted function value and wrapped arrow body — gives back `p` itself up to source
+    positions.  Operation visitor, block visitor (nested blocks, closures, classes, arrow bodies turned into
+    blocks and instrumented in turn) and program visitor are all inside the statement; running out of fuel
+    is covered too (what is not visited is returned as it is).  *Partial*: optional chaining (`noOpt`). -/
+theorem erasing_the_instrumentation_gives_back_the_input_partial (cfg : Config) (fuel : Nat) (p : Node)
+    (hs : srcOk p = true) (hno : noOpt p = true) (hnb : isBlockNode p = false)
+    (hm : (transformProgram cfg fuel p).status = .modified) :
+    strip (eraseProgram (prologue cfg.dsts) (transformProgram cfg fuel p).out) = strip p ∧
+    Node.eqNS (eraseProgram (prologue cfg.dsts) (transformProgram cfg fuel p).out) p = true := by
+  obtain ⟨p1, hbr, hout⟩ := transformProgram_BRg cfg fuel p hs hno hnb (by rw [hm]; intro h; cases h)
+  rw [hout, if_pos hm, eraseProgram_insertPrologue]
+  obtain ⟨X, Δ, eX, sX, _⟩ := (VC.src 0 0 p hs).1 p1 hbr []
+  rw [eX]
+  exact ⟨sX.1, eqNS_of_strip sX.1⟩
+
+/-- every block statement the block visitor returns — at any depth, in any state, for any fuel — erases,
+    in every environment and without touching it, to the statements of the block it was given -/
+theorem block_visitor_result_erases_to_the_block_partial (cfg : Config) (opFuel f : Nat) (ss : List Node) (sp : Span) (s : St)
+    (hs : srcOk (.block ss sp) = true) (hno : noOpt (.block ss sp) = true)
+    (hnc : (blockVisit cfg opFuel f (.block ss sp) s).2.status ≠ .cancelled) :
+    ∀ σ, ∃ es, erase σ (blockVisit cfg opFuel f (.block ss sp) s).1 = (.block es sp, σ) ∧ stripL es = stripL ss := by
+  have hb := blockVisit_BRg cfg opFuel f (.block ss sp) s (blkOk_src _ hs hno) hnc
+  intro σ
+  rcases hb.block_inv with h | ⟨ss', h, hg⟩
+  · rw [h, erase_src _ hs]; exact ⟨ss, rfl, rfl⟩
+  · rw [h]
+    obtain ⟨es, ee, hsim⟩ := hg σ
+    exact ⟨es, ee, hsim.1⟩
 
 /-- the hypotheses are satisfiable: `a + b()` is a well-formed source tree without optional chaining -/
 example : srcOk (.bin "+" (.ident (.user "a") ⟨1, 2⟩) (.call (.ident (.user "b") ⟨5, 6⟩) [] ⟨5, 8⟩) ⟨1, 8⟩) = true ∧
